@@ -8,6 +8,7 @@ import (
 
 	"github.com/arloliu/go-secs/v2/hsms"
 	"github.com/arloliu/go-secs/v2/hsmsss"
+	"github.com/arloliu/go-secs/v2/secs2"
 
 	"verif/peer"
 )
@@ -17,23 +18,27 @@ func main() {
 	lg := &peer.CapLogger{}
 	l, _ := peer.Listen()
 	cfg, err := hsmsss.NewConfig("127.0.0.1", l.Port(), hsmsss.WithActive(), hsmsss.WithDialer(trk.DialFunc),
-		hsmsss.WithConnectionOption(hsms.WithSessionID(0x1234)), hsmsss.WithConnectionOption(hsms.WithSessionIDValidation(true)),
+		hsmsss.WithConnectionOption(hsms.WithSessionID(0x1234)), hsmsss.WithConnectionOption(hsms.WithWriteTimeout(200*time.Millisecond)),
 		hsmsss.WithConnectionOption(hsms.WithLogger(lg)))
 	fmt.Println(err)
 	c, _ := hsmsss.New(cfg)
-	c.AddDataMessageHandler(func(m *hsms.DataMessage, _ hsms.SECS2Endpoint) { fmt.Println("delivered", m.Stream(), m.Function()) })
 	fmt.Println(c.Open(context.Background(), hsms.OpenBackground))
 	pc, _ := l.Accept(time.Second)
 	pc.Start()
 	f, _ := pc.Recv(time.Second)
-	fmt.Println("got", f)
-	_ = pc.Send(peer.SelectReq(0x1234, 0x0a0a0a0a), peer.SelectRsp(f.Session, 1, f.Sys))
+	_ = pc.Send(peer.SelectRsp(f.Session, 0, f.Sys))
 	time.Sleep(50 * time.Millisecond)
-	fmt.Println("state", c.State())
-	_ = pc.Send(peer.Data(42, 137, false, 0xffff, 0x1000015c, []byte{0x41, 0x01, 'x'}))
-	fs, err := pc.Barrier(time.Second)
-	fmt.Println(fs, err)
+	pc.StallReads(true)
+	big := secs2.B(make([]byte, 8<<20))
+	fmt.Println("item err", big.Error())
+	for n := 0; n < 16; n++ {
+		t0 := time.Now()
+		_, err := c.SendDataMessage(context.Background(), 1, 15, false, big)
+		fmt.Println(n, time.Since(t0), err, c.State())
+		if err != nil {
+			break
+		}
+	}
 	fmt.Println(lg.Lines(""))
-	fmt.Println(c.Metrics().DataMsgRecvCount(), c.Metrics().DataMsgSendCount(), c.Metrics().AsyncSendErrCount())
 	_ = c.Close()
 }
